@@ -248,8 +248,7 @@ func c03(c *core.Ctx) {
 				}
 			}
 			// parking stores outside the receive family's own re-park of an error frame
-			for i := 0; i < nt.NumMethods(); i++ {
-				fn := p.SSA.FuncValue(nt.Method(i))
+			for _, fn := range typeFuncs(p, nt) {
 				if fn == nil || fn.Blocks == nil {
 					continue
 				}
@@ -520,7 +519,7 @@ func c03Typestate(c *core.Ctx, nt *types.Named) {
 					return true
 				}
 				if call, ok := in.(*ssa.Call); ok {
-					if ci := core.InfoOf(&call.Call); ci.Static != nil && ci.Static != f && ci.Static.Signature.Recv() != nil && core.NamedOf(ci.Static.Signature.Recv().Type()) == tn {
+					if ci := core.InfoOf(&call.Call); ci.Static != nil && ci.Static != f && core.RecvName(ci.Static) == tn {
 						return marks(ci.Static, depth+1)
 					}
 				}
@@ -571,7 +570,7 @@ func c03Typestate(c *core.Ctx, nt *types.Named) {
 					return true
 				}
 				if call, ok := in.(*ssa.Call); ok {
-					if ci := core.InfoOf(&call.Call); ci.Static != nil && ci.Static.Signature.Recv() != nil && core.NamedOf(ci.Static.Signature.Recv().Type()) == tn && ci.Static != sm {
+					if ci := core.InfoOf(&call.Call); ci.Static != nil && core.RecvName(ci.Static) == tn && ci.Static != sm {
 						return marks(ci.Static, 0)
 					}
 				}
@@ -648,7 +647,7 @@ func marksWithConstArg(p *core.Prog, nt *types.Named, sh *ssa.Function, isMark f
 		return true
 	}
 	// helper(md, true): in the helper, on the 'param true' edge every nil return passes a mark
-	for _, call := range core.CallsIn(sh, func(_ *ssa.Call, ci core.CallInfo) bool { return ci.Static != nil && ci.Static.Signature.Recv() != nil }) {
+	for _, call := range core.CallsIn(sh, func(_ *ssa.Call, ci core.CallInfo) bool { return ci.Static != nil && core.RecvName(ci.Static) != "" }) {
 		h := core.InfoOf(&call.Call).Static
 		for i, a := range call.Call.Args {
 			b, isC := core.ConstBool(a)
@@ -667,7 +666,7 @@ func marksWithConstArg(p *core.Prog, nt *types.Named, sh *ssa.Function, isMark f
 						return true
 					}
 					if c2, isCall := in.(*ssa.Call); isCall {
-						if ci := core.InfoOf(&c2.Call); ci.Static != nil && ci.Static != h && ci.Static.Signature.Recv() != nil {
+						if ci := core.InfoOf(&c2.Call); ci.Static != nil && ci.Static != h && core.RecvName(ci.Static) != "" {
 							return marks(ci.Static, 1)
 						}
 					}
@@ -811,7 +810,7 @@ func c03CallOptions(c *core.Ctx) {
 				}
 				if isF && f == nd.field && core.NamedOf(base.Type()) == "frame" {
 					// only received frames (not literals under construction, not the frame's own methods)
-					if fn.Signature.Recv() != nil && core.NamedOf(fn.Signature.Recv().Type()) == "frame" {
+					if core.RecvName(fn) == "frame" {
 						return
 					}
 					reads = true
@@ -1241,7 +1240,7 @@ func isFrameFieldRead(fn *ssa.Function, in ssa.Instruction, field string) bool {
 	if !ok {
 		return false
 	}
-	if fn.Signature.Recv() != nil && core.NamedOf(fn.Signature.Recv().Type()) == "frame" {
+	if core.RecvName(fn) == "frame" {
 		return false
 	}
 	var base ssa.Value
@@ -1660,6 +1659,9 @@ func parkedKinds(kinds map[string]int64, st *ssa.Store) (map[string]int64, bool)
 		}
 		if _, isU := s2.Val.(*ssa.UnOp); isU {
 			lit = false
+		}
+		if pp, isPar := s2.Val.(*ssa.Parameter); isPar && isReceivedFrame(pp, 0) {
+			lit = false // the received frame handed to a step function
 		}
 	}
 	if lit {
